@@ -114,4 +114,7 @@ var gnoKind = &appKind{
 	appState: func() any { return gnoSpec().GenesisState() },
 	params:   func() abci.ConsensusParams { return gnoSpec().ConsensusParams() },
 	plan:     gnoPlan,
+	// rootmulti's commitInfo records ("s/<version>") list the stores in map-iteration order: the bytes differ
+	// from run to run although the commit hash (order-independent) is the same. Everything else is compared.
+	dumpSkip: func(k []byte) bool { return len(k) > 2 && k[0] == 's' && k[1] == '/' && k[2] >= '0' && k[2] <= '9' },
 }
